@@ -193,9 +193,13 @@ func (r *Report) Finish() int {
 			Mutants  int `json:"mutants"`
 			Failures int `json:"failures"`
 			Results  []map[string]any
+			Note     string `json:"note"`
 		}
 		if json.Unmarshal(b, &st) == nil {
 			r.Analysed["selftest"] = map[string]any{"mutants_applied_to_scratch_copies": st.Mutants, "failures": st.Failures, "results": st.Results}
+			if st.Note != "" {
+				r.Analysed["selftest"] = map[string]any{"note": st.Note}
+			}
 			if st.Failures > 0 {
 				r.Fatal("checker self-test: %d of %d mutants / silent edits of this property were not handled as expected (see evidence/%s.selftest.log)", st.Failures, st.Mutants, r.Property)
 			}
